@@ -298,7 +298,8 @@ def rule_det(rep: Report, rid="C15.det") -> None:
                 bad = "os.environ"
             if bad:
                 rep.ob(rid, "results depend only on the input (no clock, randomness, object identity, hash order or environment)", False,
-                       file=fi.file, line=node.lineno, function=fi.qualname, expected="deterministic operations", found=bad)
+                       file=fi.file, line=getattr(node, "lineno", getattr(getattr(node, "iter", None), "lineno", fi.node.lineno)), function=fi.qualname,
+                       expected="deterministic operations", found=bad)
     mods = set()
     for m in facts().modules.values():
         if m.name.startswith("gherkin") and m.name != "gherkin.inout":
